@@ -71,7 +71,12 @@ class IndexDatetime(Index):
     def __contains__(self, value: tp.Any) -> bool:
         '''Return True if value in the labels. Will only return True for an exact match to the type of dates stored within.
         '''
-        return self._map.__contains__(to_datetime64(value)) #type: ignore
+        try:
+            key = to_datetime64(value)
+        except (ValueError, TypeError):
+            # a value that cannot be interpreted as a date is not a member
+            return False
+        return self._map.__contains__(key) #type: ignore
 
     #---------------------------------------------------------------------------
     # operators
